@@ -26,7 +26,7 @@ REAL_VS_STUB = {"real": ["bounds.compute_bounds_superadditive", "bounds.compute_
                 "seams": ["scheduler interleaving objects of different n", "memo eviction", "interrupt injector"]}
 ASSUMPTIONS = ["bit-identical in exact mode, within 1e-9*max(1,max|v|) in float mode (the property's wording)",
                "both computers are compared only at knowledge sets containing the minimal information"]
-PROBES = ["two_sizes_interleaved", "evict_between_computes_same_n", "torn_on_one_twin", "scribble_on_one_twin",
+PROBES = ["computes_interleaved_in_two_threads", "two_sizes_interleaved", "evict_between_computes_same_n", "torn_on_one_twin", "scribble_on_one_twin",
           "n2_pair", "float_mode", "exact_mode"]
 TIERS = {
     "quick": {"runs": 50000, "wall": 40, "batch": 24, "shrink_s": 40},
@@ -67,6 +67,36 @@ def compare(sim: Sim, p: Pair) -> None:
                   "cached": [[float(lb[i]), float(ub[i])] for i in bad]})
 
 
+def concurrent_computes(sim: Sim, pairs: list) -> None:
+    """Two threads of the process recompute the bounds of two *different* game objects at the same time
+    (line-granular interleaving decided by the tape); afterwards each pair must still agree."""
+    from .. import simthreads
+    order = sim.shuffled(list(range(len(pairs))), "thread-pairs")[:2 + sim.choose(min(2, len(pairs) - 1), "n-threads")]
+    chosen = [pairs[i] for i in order if pairs[i].ref.has_minimal()]
+    if len(chosen) < 2:
+        return
+    which = sim.pick(["cached", "mixed"], "thread-computers")
+    thunks = []
+    for j, p in enumerate(chosen):
+        h = p.cached if which == "cached" or j % 2 == 0 else p.ref
+        thunks.append(h.g.compute_bounds)
+    sim.op("concurrent-computes", [p.n for p in chosen], which)
+    with sim.guard("C03.operation_raised"):
+        simthreads.interleave(sim, thunks)
+        for p in chosen:  # whatever the threads left behind, a completed compute of both twins must agree
+            p.ref.compute()
+            if which != "cached":
+                p.cached.compute()
+            p.cached.dirty = False
+    sim.probe("computes_interleaved_in_two_threads")
+    for p in chosen:
+        if which == "cached":
+            # the cached twin was computed by a thread that was pre-empted between lines: judge that result
+            compare(sim, p)
+        else:
+            compare(sim, p)
+
+
 def run(sim: Sim) -> None:
     thorough = sim.tier == "thorough"
     npairs = 2 + sim.choose(3, "pairs")
@@ -93,6 +123,9 @@ def run(sim: Sim) -> None:
     for _ in range(steps):
         if sim.flip(1, 16, "other-use"):
             prelude.warm_process(sim, label="midrun")
+        if len(pairs) >= 2 and sim.flip(1, 10, "threads"):
+            concurrent_computes(sim, pairs)
+            continue
         pi = sim.choose(len(pairs), "which-pair")
         p = pairs[pi]
         if last_pair >= 0 and pairs[last_pair].n != p.n:
